@@ -160,7 +160,12 @@ func (qs *QueryStore) OnQueryChange(cb func(store.QueryChange)) {
 
 // Flush waits for the indexing queue to be cleared.
 func (qs *QueryStore) Flush() {
-	qs.tq.Flush()
+	// The task queue considers itself flushed as soon as the last task has
+	// been taken from the queue, while that task may still be running. Wait for
+	// a task of our own instead: tasks are run one at a time in queue order.
+	done := make(chan struct{})
+	qs.tq.Do(func() { close(done) })
+	<-done
 }
 
 func (qs *QueryStore) handleChange(id string, before, after interface{}) {
